@@ -98,14 +98,17 @@ example : indexShape [2, 3] [Ix.ell, Ix.int 0] = .ok [2]
 
 /-! ### `td[idx]` as a whole: `__getitem__` dispatch + `_index_tensordict` -/
 
+/-- the tensordict has no dim names, or one name per batch dim -/
+def NamesCoherent (td : TD) : Prop := ∀ names, td.names = some names → names.length = td.bs.length
+
 /-- **Reads, Ellipsis-free tuple index.** For every tensordict (any batch shape, any leaves with any feature shapes, any
-nested tensordicts with extra batch dims; no dim names) and every tuple index without Ellipsis that torch accepts on a
+nested tensordicts with extra batch dims; unnamed or with one name per batch dim) and every tuple index without Ellipsis that torch accepts on a
 tensor of the batch shape with result `R`: `td[idx]` succeeds and is *good*: either it returns `self` and `R` is the
 identity view, or it is a new tensordict with `batch_size = R.shape` whose every leaf (direct or nested) has shape
 `R.shape ++ feat`, aliases its source exactly when torch's result does, and holds at `c ++ f` the source element
 `R.src c ++ f`. -/
 theorem getitem_tuple_eq_torch (td : TD) (items : List Ix) (R : IndexResult)
-    (hn : noEll items = true) (hnames : td.names = none) (h : index td.bs items = .ok R) :
+    (hn : noEll items = true) (hnames : NamesCoherent td) (h : index td.bs items = .ok R) :
     ∃ res, getitem td (.tuple items) = .ok res ∧ GoodRes td R res := by
   cases items with
   | nil => exact ⟨.self, rfl, index_all_full td.bs [] R rfl h⟩
@@ -114,11 +117,11 @@ theorem getitem_tuple_eq_torch (td : TD) (items : List Ix) (R : IndexResult)
       simp only [noEll, List.all_eq_true, bne_iff_ne, ne_eq] at hn
       simpa using hn
     simp only [getitem, hany, Bool.false_eq_true, if_false]
-    exact getitemTail_ok td (x :: r) R hn hnames h
+    exact getitemTail_ok' td (x :: r) R hn (namesIdx_ok_of_index td.names td.bs _ R hn hnames h) h
 
 /-- **Reads, tuple index with an Ellipsis.** Same conclusion for `pre ++ (...,) ++ post`. -/
 theorem getitem_ellipsis_eq_torch (td : TD) (pre post : List Ix) (R : IndexResult)
-    (hpre : noEll pre = true) (hpost : noEll post = true) (hnames : td.names = none)
+    (hpre : noEll pre = true) (hpost : noEll post = true) (hnames : NamesCoherent td)
     (h : index td.bs (pre ++ Ix.ell :: post) = .ok R) :
     ∃ res, getitem td (.tuple (pre ++ Ix.ell :: post)) = .ok res ∧ GoodRes td R res := by
   have hany : (pre ++ Ix.ell :: post).any (· = Ix.ell) = true := by simp
@@ -146,25 +149,26 @@ theorem getitem_ellipsis_eq_torch (td : TD) (pre post : List Ix) (R : IndexResul
   | cons x r =>
     simp only [getitem]
     rw [← hl, hany, if_pos rfl, hconv]
-    exact getitemTail_ok td _ R hn' hnames hR
+    exact getitemTail_ok' td _ R hn' (namesIdx_ok_of_index td.names td.bs _ R hn' hnames hR) hR
 
 /-- **Reads, bare (non-tuple) index** `td[x]`: an int goes straight to `_index_tensordict` (batch size `batch_size[1:]`),
 `...` returns `self`, anything else is wrapped in a 1-tuple. Same conclusion as for tuples. -/
-theorem getitem_single_eq_torch (td : TD) (x : Ix) (R : IndexResult) (hnames : td.names = none)
+theorem getitem_single_eq_torch (td : TD) (x : Ix) (R : IndexResult) (hnames : NamesCoherent td)
     (h : index td.bs [x] = .ok R) :
     ∃ res, getitem td (.single x) = .ok res ∧ GoodRes td R res := by
   by_cases hx : x = Ix.ell
   · subst hx; exact ⟨.self, rfl, index_ell_identity td.bs R h⟩
   · have hn : noEll [x] = true := by simp [noEll, hx]
+    have hnm := namesIdx_ok_of_index td.names td.bs [x] R hn hnames h
     cases x with
     | ell => exact absurd rfl hx
-    | int i => simpa [getitem] using indexTensordict_int_ok td i R hnames h
-    | slice a b c => simpa [getitem] using getitemTail_ok td [Ix.slice a b c] R hn hnames h
-    | none => simpa [getitem] using getitemTail_ok td [Ix.none] R hn hnames h
-    | list l => simpa [getitem] using getitemTail_ok td [Ix.list l] R hn hnames h
-    | range a b c => simpa [getitem] using getitemTail_ok td [Ix.range a b c] R hn hnames h
-    | tensor s d => simpa [getitem] using getitemTail_ok td [Ix.tensor s d] R hn hnames h
-    | mask s d => simpa [getitem] using getitemTail_ok td [Ix.mask s d] R hn hnames h
+    | int i => simpa [getitem] using indexTensordict_int_ok td i R (by rw [namesIdx_single]; exact hnm) h
+    | slice a b c => simpa [getitem] using getitemTail_ok' td [Ix.slice a b c] R hn hnm h
+    | none => simpa [getitem] using getitemTail_ok' td [Ix.none] R hn hnm h
+    | list l => simpa [getitem] using getitemTail_ok' td [Ix.list l] R hn hnm h
+    | range a b c => simpa [getitem] using getitemTail_ok' td [Ix.range a b c] R hn hnm h
+    | tensor s d => simpa [getitem] using getitemTail_ok' td [Ix.tensor s d] R hn hnm h
+    | mask s d => simpa [getitem] using getitemTail_ok' td [Ix.mask s d] R hn hnm h
 
 /-! ### an index torch rejects is rejected -/
 
@@ -240,6 +244,46 @@ theorem getitem_single_rejects (td : TD) (x : Ix) (e : Err) (hstrict : [] ∈ td
     obtain ⟨R, hR⟩ := key
     rw [hR] at h; cases h
 
+/-- **Too many indices are always rejected** (acceptance test of the fix of §7 row 6; no hypothesis on the entries):
+an index that addresses more dims than the batch has — the case in which it would run into feature dims — makes
+`td[idx]` raise, for tuples without Ellipsis, … -/
+theorem getitem_too_many_indices_rejected (td : TD) (items : List Ix) (hn : noEll items = true)
+    (h : specified items > td.bs.length) : ∃ e, getitem td (.tuple items) = .error e := by
+  cases items with
+  | nil => simp [specified] at h
+  | cons x r =>
+    have hany : (x :: r).any (· = Ix.ell) = false := by
+      simp only [noEll, List.all_eq_true, bne_iff_ne, ne_eq] at hn
+      simpa using hn
+    refine ⟨.index, ?_⟩
+    simp only [getitem, hany, Bool.false_eq_true, if_false, getitemTail, checkIndexNdim, PyIndex.items,
+      indexNdim_eq_specified]
+    rw [if_pos h]
+
+/-- … for tuples with an Ellipsis (rejected by `convert_ellipsis_to_idx`), … -/
+theorem getitem_too_many_indices_rejected_ellipsis (td : TD) (pre post : List Ix)
+    (hpre : noEll pre = true) (hpost : noEll post = true)
+    (h : specified pre + specified post > td.bs.length) :
+    ∃ e, getitem td (.tuple (pre ++ Ix.ell :: post)) = .error e := by
+  have hany : (pre ++ Ix.ell :: post).any (· = Ix.ell) = true := by simp
+  cases hl : pre ++ Ix.ell :: post with
+  | nil => simp at hl
+  | cons x r =>
+    refine ⟨.runtime, ?_⟩
+    simp only [getitem]
+    rw [← hl, hany, if_pos rfl, convertEllipsis_too_many pre post td.bs.length hpre hpost (by omega)]
+
+/-- … and for writes. -/
+theorem setitem_too_many_indices_rejected (td : TD) (items : List Ix) (v : Shape) (hn : noEll items = true)
+    (h : specified items > td.bs.length) : ∃ e, setitem td (.tuple items) v = .error e := by
+  have hany : items.any (· = Ix.ell) = false := by
+    simp only [noEll, List.all_eq_true, bne_iff_ne, ne_eq] at hn
+    simpa using hn
+  refine ⟨.index, ?_⟩
+  simp only [setitem, hany, Bool.false_eq_true, if_false, bind, Except.bind, checkIndexNdim, PyIndex.items,
+    indexNdim_eq_specified]
+  rw [if_pos h]
+
 /-- the strict-entry hypothesis is needed: with no entry at all an out-of-range int is accepted and the batch size
 `batch_size[1:]` is returned (known finding C03-index-unchecked-without-strict-leaf; replayed on the implementation by the
 `witness` stream of check_C03.py) -/
@@ -302,6 +346,37 @@ theorem setitem_rejects (bs : Shape) (items : List Ix) (v : Shape) (e : Err) (h 
     setIndex bs items v = .error e := by
   simp [setIndex, h]
 
+/-- **Writes as a whole, accepted.** For an Ellipsis-free tuple index torch accepts on the batch shape (result R) and a scalar /
+tensor value of shape `v` that broadcasts to `R.shape ++ feat` for every direct and nested leaf, `td[idx] = value` succeeds
+with one write map per leaf (each of them described by `setitem_frame` / `setitem_hit`). -/
+theorem setitem_tuple_accepts (td : TD) (items : List Ix) (v : Shape) (R : IndexResult)
+    (hn : noEll items = true) (h : index td.bs items = .ok R)
+    (hv : ∀ feat ∈ td.leaves, valueOk v (R.shape ++ feat) = true)
+    (hvn : ∀ nd ∈ td.nested, ∀ feat ∈ nd.leaves, valueOk v (R.shape ++ (nd.extra ++ feat)) = true) :
+    ∃ ws, setitem td (.tuple items) v = .ok ws ∧
+      ws.length = td.leaves.length + (td.nested.map (·.leaves.length)).sum :=
+  setitem_tuple_ok td items v R hn h hv hvn
+
+/-- **Writes as a whole, rejected.** If one entry has exactly the batch shape, `td[idx] = value` (Ellipsis-free tuple) raises
+whenever torch rejects the index on a tensor of the batch shape — including an index running into feature dims, which
+`__setitem__` used to accept (§7 row 6). -/
+theorem setitem_tuple_rejects (td : TD) (items : List Ix) (v : Shape) (e : Err) (hstrict : [] ∈ td.leaves)
+    (hn : noEll items = true) (h : index td.bs items = .error e) :
+    ∃ e', setitem td (.tuple items) v = .error e' := by
+  cases hs : setitem td (.tuple items) v with
+  | error e' => exact ⟨e', rfl⟩
+  | ok ws =>
+    obtain ⟨R, hR⟩ := setitem_tuple_ok_inv td items v ws hstrict hn hs
+    rw [hR] at h; cases h
+
+/-- **Broadcasting a collection value on the left.** When the batch of a TensorDict value is a trailing part of the indexed
+batch, `__setitem__` expands the value to `indexed_bs` (`pre ++ v`) before handing it to torch. For every coordinate of the
+indexed region the element of the *original* value that lands there is the one torch's own right-aligned broadcast of the
+unexpanded value would put there: the manual expansion changes nothing. -/
+theorem expand_left_is_torch_broadcast (out pre v : Shape) (c : List Nat) (hlen : (pre ++ v).length ≤ out.length) :
+    (valueCoord (pre ++ v) out c).drop pre.length = valueCoord v out c :=
+  valueCoord_expand_left out pre v c hlen
+
 /-! ### aliasing -/
 
 /-- **Shares memory iff basic.** torch's result is a view of the source exactly when every item of the index is basic
@@ -313,6 +388,31 @@ theorem shares_memory_iff_basic (dims : Shape) (items : List Ix) (R : IndexResul
   obtain ⟨-, P, hw, hf⟩ := index_inv h
   obtain ⟨B, -, -, -, hview⟩ := finalize_ok hf
   rw [hview]; exact advShapes_walk_iff items _ dims P hw
+
+/-! ### the excluded point of the grammar: more than one Ellipsis -/
+
+/-- All theorems above take an index with at most one Ellipsis. The exclusion is real: torch 2.14 accepts `x[..., ...]`
+(identity), `convert_ellipsis_to_idx` raises "An index can only have one ellipsis at most". Outside the property's grammar
+("Ellipsis", as in numpy, where a second one is an error); recorded on every run in the evidence notes. -/
+theorem two_ellipses_counterexample :
+    indexShape [2, 3] [Ix.ell, Ix.ell] = .ok [2, 3] ∧
+    convertEllipsis (.tuple [Ix.ell, Ix.ell]) 2 = .error .runtime ∧
+    ∃ e, getitem { bs := [2, 3], names := none, leaves := [[]], nested := [] } (.tuple [Ix.ell, Ix.ell]) = .error e := by
+  refine ⟨by decide, by decide, .runtime, ?_⟩
+  simp [getitem, convertEllipsis, ellLoop, PyIndex.items]
+
+/-! ### sanity of the spec -/
+
+/-- **TorchSpec addresses every source dim exactly once**: whatever the index, the source coordinate of a result element
+has the rank of the indexed tensor (ints, slices and index arrays each contribute their dims, `None` contributes none,
+the Ellipsis and the implicit tail the rest). -/
+theorem src_rank (dims : Shape) (items : List Ix) (R : IndexResult) (h : index dims items = .ok R) (c : List Nat) :
+    (R.src c).length = dims.length := by
+  obtain ⟨-, P, hw, hf⟩ := index_inv h
+  obtain ⟨B, -, -, hsrc, -⟩ := finalize_ok hf
+  rw [hsrc, ← walk_consumed items _ dims P hw]
+  unfold srcCoord
+  split <;> exact walkSrc_length _ P _
 
 /-! ### dim names
 
@@ -355,22 +455,14 @@ theorem names_follow_index_partial (names : Names) (bs : Shape) (items : List Ix
       | new => simp [pieceNames, streamLen, ih _ (by simpa [hasAdv, advShapes] using h)]; omega
   exact this P names hna
 
-/-- **Reads with dim names (basic indices).** Theorem `getitem_tuple_eq_torch` also holds for a *named* tensordict when the
-index is basic: `td[idx]` succeeds, is `GoodRes`, and a new result carries the names of `names_follow_index_partial`. -/
+/-- **Reads with dim names.** `getitem_tuple_eq_torch` needs no "unnamed" hypothesis (the lookups of `_get_names_idx` never
+run out of range on an index torch accepts: `namesIdx_ok`); for basic indices the names of the result are moreover the ones of
+`names_follow_index_partial`. Instance for a named tensordict: -/
 theorem getitem_tuple_eq_torch_named (td : TD) (names : Names) (items : List Ix) (R : IndexResult)
-    (hb : basicNoEll items = true) (hnames : td.names = some names) (hlen : names.length = td.bs.length)
+    (hn : noEll items = true) (hnames : td.names = some names) (hlen : names.length = td.bs.length)
     (h : index td.bs items = .ok R) :
-    ∃ res, getitem td (.tuple items) = .ok res ∧ GoodRes td R res := by
-  have hn := noEll_of_basicNoEll items hb
-  obtain ⟨P, -, hnm, -⟩ := names_follow_index_partial names td.bs items R hb hlen h
-  cases items with
-  | nil => exact ⟨.self, rfl, index_all_full td.bs [] R rfl h⟩
-  | cons x r =>
-    have hany : (x :: r).any (· = Ix.ell) = false := by
-      simp only [noEll, List.all_eq_true, bne_iff_ne, ne_eq] at hn
-      simpa using hn
-    simp only [getitem, hany, Bool.false_eq_true, if_false]
-    exact getitemTail_ok' td (x :: r) R hn ⟨_, by rw [hnames]; exact hnm⟩ h
+    ∃ res, getitem td (.tuple items) = .ok res ∧ GoodRes td R res :=
+  getitem_tuple_eq_torch td items R hn (by intro nm hnm; rw [hnames] at hnm; cases hnm; exact hlen) h
 
 /-- **Counter-witness for advanced indices** (replayed on the implementation by the `getitem` correspondence stream and
 the `witness` stream): on batch `[3, 2, 4]` named `a, b, c`, `td[:, [0, 1], None, [0, 1]]` has batch size `[2, 3, 1]`
@@ -419,7 +511,7 @@ example : ∃ res, getitem { bs := [2, 3], names := none, leaves := [[], [4]], n
   obtain ⟨R, hR, -⟩ := index_ok_of_shape (by decide : indexShape [2, 3] ([.list [1, 0]] ++ Ix.ell :: []) = .ok [2, 3])
   obtain ⟨res, h, -⟩ := getitem_ellipsis_eq_torch
     { bs := [2, 3], names := none, leaves := [[], [4]], nested := [{ extra := [5], leaves := [[]] }] } [.list [1, 0]] [] R
-    (by decide) (by decide) rfl hR
+    (by decide) (by decide) (by intro names h; cases h) hR
   exact ⟨res, h⟩
 /-- rejection is not vacuous: an out-of-range int, a negative step, a mask of the wrong size, too many indices -/
 example : indexShape [2, 3] [.int 2] = .error .index ∧ indexShape [2, 3] [.slice none none (some (-1))] = .error .value
